@@ -33,6 +33,8 @@ func main() {
 		os.Exit(cmdList(os.Args[2:]))
 	case "dump":
 		os.Exit(cmdDump(os.Args[2:]))
+	case "rac":
+		os.Exit(cmdRac(os.Args[2:]))
 	case "replay":
 		os.Exit(cmdReplay(os.Args[2:]))
 	case "selftest":
@@ -364,4 +366,47 @@ func writeJSON(path string, v interface{}) error {
 	}
 	os.MkdirAll(filepath.Dir(path), 0o755)
 	return os.WriteFile(path, append(data, '\n'), 0o644)
+}
+
+// cmdRac runs the bounded contract search (run-time assertion checking on enumerated inputs) for one function.
+func cmdRac(args []string) int {
+	fs := flag.NewFlagSet("rac", flag.ExitOnError)
+	repo := fs.String("repo", envOr("VERIF_REPO", "/repo"), "repository")
+	verif := fs.String("verif", envOr("VERIF_DIR", "/verif"), "verif dir")
+	fn := fs.String("func", "", "function key pkg.Func")
+	fs.Parse(args)
+	p, err := loadProgram(*repo, *verif)
+	if err != nil {
+		fmt.Fprintln(os.Stderr, err)
+		return 2
+	}
+	c := p.Contracts.Funcs[*fn]
+	if c == nil {
+		fmt.Fprintln(os.Stderr, "no contract for", *fn)
+		return 2
+	}
+	f := p.lookupFunc(c.Pkg, c.Func)
+	s, err := verifyFunction(p, f, c)
+	if err != nil {
+		fmt.Fprintln(os.Stderr, err)
+		return 2
+	}
+	src, notes, err := buildReplayTest(p, s, nil)
+	if err != nil {
+		fmt.Fprintln(os.Stderr, err)
+		return 2
+	}
+	for _, n := range notes {
+		fmt.Println("note:", n)
+	}
+	out := runReplayTest(p, s, src, filepath.Join(*verif, "work", "rac", sanitizeFile(*fn)))
+	fmt.Println("confirmed:", out.Confirmed)
+	fmt.Println("reason:", out.Reason)
+	if !strings.Contains(out.Output, "GOVC-END") {
+		fmt.Println(out.Output)
+	}
+	if out.Confirmed {
+		return 1
+	}
+	return 0
 }
